@@ -20,7 +20,9 @@ RULE = ("directed enumeration split over the shards: every message length 0..400
         "decryption of the model's ciphertext, every single-byte corruption (16 positions x 255 values) of the last "
         "ciphertext block judged by the model's unpadding (quick tier: exhaustive for plaintext lengths 0..17 and "
         "those = 0, 1, 15 mod 16, 32 values per position otherwise), targeted changes of the "
-        "padding bytes through the preceding block / IV, invalid key and ciphertext lengths.  Message, key and IV bytes "
+        "padding bytes through the preceding block / IV, invalid key and ciphertext lengths; aliasing classes for every md_* "
+        "routine (digest over / inside / at the tail of the message, mac == in / tail of in / key for key lengths below, "
+        "at and above the block size, KDF/MGF/XMD output equal to or overlapping the input, five-step in-place HMAC chains).  Message, key and IV bytes "
         "are random or patterned (zero, 0xFF, 0x80, counting) per seed.  Every buffer is an exact-size malloc block. "
         "distinct = distinct (function, class, inputs)")
 ASSUMPTIONS = ["hashlib's SHA-224/256/384/512 and BLAKE2s and the hmac module are correct (trusted base)",
@@ -29,6 +31,10 @@ ASSUMPTIONS = ["hashlib's SHA-224/256/384/512 and BLAKE2s and the hmac module ar
                "a DST longer than 255 bytes may be rejected with an error or handled as RFC 9380 5.3.3 prescribes",
                "bc_aes_cbc_dec may insist on an output capacity of the ciphertext length (plaintext length unknown "
                "to the caller beforehand); only a capacity below the plaintext length must be refused",
+               "md_map_*, md_hmac, md_kdf, md_mgf, md_xmd_* may be called with the output buffer equal to or overlapping an input "
+               "(message, key, secret): the unchanged tree consumes these inputs before writing and in-place HMAC chains "
+               "U_i = HMAC(K, U_{i-1}) depend on it; md_map_b2s160/b2s256 are excluded (they zero the digest buffer first); md_xmd_* with output == DST is exercised for one output block only, "
+               "because the routine re-reads the DST for every block (reported, not demanded)",
                "bc_aes_cbc_enc/dec with out == in (complete aliasing) is a supported call: the library itself decrypts in place "
                "(cp_ecies_dec) and both pad routines of the unchanged tree consume each input block before overwriting it; the "
                "aliased buffer is exempt from the 'input unchanged' check (key and IV are still checked); partially "
@@ -339,6 +345,167 @@ def run(ctx, part):
         if not quick:
             for _ in range(ctx.n(0, 30000) // ctx.nshards):
                 xmd_case(fn, name, rng.randrange(0, 255 * dl + 40), rng.randrange(0, 500), rng.randrange(0, 300))
+
+    # ------------------------------------------------------------- overlapping output / input buffers
+    # Every md_* routine of the unchanged tree consumes its inputs before the first byte of the output is written
+    # (md_xmd_* re-reads the DST for every block, so output == DST is only exercised for a single output block).
+    def kcls(kl):
+        return "k0" if kl == 0 else ("k<bs" if kl < hbs else ("k=bs" if kl == hbs else "k>bs"))
+
+    def hexp(k, m):
+        return _hmac.new(k, m, stdalg).digest() if stdalg else mdbc.hmac_model(default, k, m)
+
+    def hmac_alias_case(mode, kl, n):
+        k, _ = data(kl)
+        m, _ = data(n)
+
+        def body(key):
+            B = Bufs()
+            poison = rng.randrange(256)
+            if mode == "mac=key":
+                blk = B.put(k + bytes([poison]) * max(0, hdl - kl))
+                pk, pm, mac = blk, B.put(m), blk
+            else:
+                off = 0 if mode == "mac=in" else n - hdl
+                blk = B.put(m + bytes([poison]) * max(0, hdl - n))
+                pk, pm, mac = B.put(k), blk, blk + off
+            res = R.call("md_hmac", mac, pm, n, pk, kl)
+            if ctx.check(not res.caught, key + "|unexpected-error", {"err": res.err}):
+                got = R.get(mac, hdl)
+                exp = hexp(k, m)
+                ctx.check(got == exp, key + "|value", {"got": got.hex(), "exp": exp.hex()})
+            if mode == "mac=key":
+                ctx.check(R.get(pm, n) == m, key + "|input-modified")
+            else:
+                ctx.check(R.get(pk, kl) == k, key + "|input-modified")
+                if mode == "mac=in-tail":
+                    ctx.check(R.get(pm, n - hdl) == m[:n - hdl], key + "|input-modified")
+            B.free()
+        case("md_hmac|alias:%s|%s" % (mode, kcls(kl)), {"key": dsc(k), "msg": dsc(m)}, body)
+
+    def hmac_chain_case(kl, sl, steps=5):
+        k, _ = data(kl)
+        seed, _ = data(sl)
+
+        def body(key):
+            B = Bufs()
+            pk = B.put(k)
+            u = B.put(seed + bytes(max(0, hdl - sl)))
+            cur, ln = seed, sl
+            for i in range(1, steps + 1):
+                res = R.call("md_hmac", u, u, ln, pk, kl)          # U_i = HMAC(K, U_{i-1}) computed in place
+                cur = hexp(k, cur)
+                if not ctx.check(not res.caught and R.get(u, hdl) == cur, key + "|step%d" % i,
+                                 {"caught": res.caught, "got": R.get(u, hdl).hex(), "exp": cur.hex()}):
+                    break
+                ln = hdl
+            ctx.check(R.get(pk, kl) == k, key + "|input-modified")
+            B.free()
+        case("md_hmac|chain-in-place|%s" % kcls(kl), {"key": dsc(k), "seed": dsc(seed), "steps": steps}, body)
+
+    if R.has("md_hmac"):
+        for kl in (0, 1, 16, hbs - 1, hbs, hbs + 1, hbs + hdl, 100, 200):
+            for n in (0, hdl, hdl + 1, 64, 100, 200):
+                for mode in ("mac=in", "mac=in-tail", "mac=key"):
+                    if mode == "mac=in-tail" and n < hdl:
+                        continue
+                    if mine():
+                        hmac_alias_case(mode, kl, n)
+            for sl in (0, 20, hdl, 100):
+                if mine():
+                    hmac_chain_case(kl, sl)
+
+    def map_alias_case(fn, name, n, where):
+        _, dl, bs, lf = mdbc.HASHES[name]
+        m, _ = data(n)
+        off = {"hash=msg": 0, "hash-inside-msg": max(0, (n - dl) // 2), "hash=msg-tail": max(0, n - dl)}[where]
+
+        def body(key):
+            B = Bufs()
+            blk = B.put(m + bytes(max(0, off + dl - n)))
+            res = R.call(fn, blk + off, blk, n)
+            if ctx.check(not res.caught, key + "|unexpected-error", {"err": res.err}):
+                got = R.get(blk + off, dl)
+                exp = mdbc.H(name, m)
+                ctx.check(got == exp, key + "|value", {"got": got.hex(), "exp": exp.hex()})
+                ctx.check(R.get(blk, off) == m[:off] and R.get(blk + off + dl, max(0, n - off - dl)) == m[off + dl:],
+                          key + "|wrote-outside-digest")
+            B.free()
+        case("%s|alias:%s" % (fn, where), {"msg": dsc(m), "offset": off}, body)
+
+    for fn, name in hashfns:
+        # md_map_b2s160/b2s256 clear the digest buffer before hashing: overlapping buffers are not supported there
+        # (silently wrong digest on the unchanged tree - reported, not demanded)
+        if not R.has(fn) or name.startswith("b2s"):
+            continue
+        for n in (0, 1, 19, 20, 31, 32, 33, 55, 56, 63, 64, 65, 100, 119, 120, 128, 129, 200, 300, 1000):
+            for where in ("hash=msg", "hash-inside-msg", "hash=msg-tail"):
+                if mine():
+                    map_alias_case(fn, name, n, where)
+
+    def kdf_alias_case(fn, start, outl, inl, off):
+        z, _ = data(inl)
+
+        def body(key):
+            B = Bufs()
+            blk = B.put(z + bytes(max(0, off + outl - inl)))
+            res = R.call(fn, blk + off, outl, blk, inl)
+            if ctx.check(not res.caught, key + "|unexpected-error", {"err": res.err}):
+                got = R.get(blk + off, outl)
+                exp = mdbc.counter_kdf(default, z, outl, start)
+                ctx.check(got == exp, key + "|value", {"got": got[:96].hex(), "exp": exp[:96].hex()})
+                ctx.check(R.get(blk, min(off, inl)) == z[:off], key + "|wrote-outside-output")
+            B.free()
+        case("%s|alias:%s" % (fn, "out=in" if off == 0 else "out-overlaps-in"), {"out_len": outl, "in": dsc(z), "offset": off}, body)
+
+    for fn, start in (("md_kdf", 1), ("md_mgf", 0)):
+        if not R.has(fn):
+            continue
+        for outl in (0, 1, hdl - 1, hdl, hdl + 1, 2 * hdl, 100, 200):
+            for inl in (0, 1, hdl, 60, 100, 200):
+                for off in sorted(set([0, inl // 2, max(0, inl - 1)])):
+                    if mine():
+                        kdf_alias_case(fn, start, outl, inl, off)
+
+    def xmd_alias_case(fn, name, outl, n, dl_, mode):
+        m, _ = data(n)
+        dst, _ = data(dl_)
+
+        def body(key):
+            B = Bufs()
+            if mode == "out=dst":
+                blk = B.put(dst + bytes(max(0, outl - dl_)))
+                pm, pd, out = B.put(m), blk, blk
+            else:
+                off = 0 if mode == "out=in" else n // 2
+                blk = B.put(m + bytes(max(0, off + outl - n)))
+                pm, pd, out = blk, B.put(dst), blk + off
+            res = R.call(fn, out, outl, pm, n, pd, dl_)
+            if ctx.check(not res.caught, key + "|unexpected-error", {"err": res.err}):
+                got = R.get(out, outl)
+                exp = mdbc.xmd(name, m, dst, outl)
+                ctx.check(got == exp, key + "|value", {"got": got[:96].hex(), "exp": exp[:96].hex()})
+            if mode == "out=dst":
+                ctx.check(R.get(pm, n) == m, key + "|input-modified")
+            else:
+                ctx.check(R.get(pd, dl_) == dst, key + "|input-modified")
+            B.free()
+        case("%s|alias:%s" % (fn, mode), {"out_len": outl, "msg": dsc(m), "dst": dsc(dst)}, body)
+
+    for fn, name in xfns:
+        if not R.has(fn):
+            continue
+        _, dl, bs, lf = mdbc.HASHES[name]
+        for outl in (1, dl - 1, dl, dl + 1, 2 * dl, 3 * dl + 5, 200):
+            for n in (0, 1, dl, bs, 100, 200):
+                for mode in ("out=in", "out-overlaps-in"):
+                    if mine():
+                        xmd_alias_case(fn, name, outl, n, rng.choice([0, 16, 43, 255]), mode)
+        # the DST is read again for every output block: output == DST is only supported for one block (ell = 1)
+        for outl in (1, dl // 2, dl - 1, dl):
+            for d in (1, 16, dl, 43, 255):
+                if mine():
+                    xmd_alias_case(fn, name, outl, rng.choice([0, 50, 200]), d, "out=dst")
 
     # ---------------------------------------------------------------------------------- AES-CBC
     def aes_call(fn, B, cap, bufsize, poison, pin, inl, pkey, kl, piv):
